@@ -21,6 +21,8 @@ func init() {
 		}
 	}
 	r9Wrap("C19", r9Panics)
+	r9Wrap("C01", r9NFC)
+	replayers["NFC"] = func(c *ctx, in []string) { nfc(c, in[0], in[1] == "1", unhx(in[2])) }
 	r9Wrap("C17", r9Panics)
 	replayers["C19Q"] = func(c *ctx, in []string) { c19Q(c, in[0], in[1]) }
 }
@@ -84,4 +86,46 @@ func r9Panics(c *ctx) {
 	_ = strings.Repeat
 	_ = httphead.Option{}
 	_ = ws.OpText
+}
+
+// NFC: the frame constructors: the header announces exactly the payload given (length, opcode, FIN, no reserved bits, no
+// mask), the payload is the bytes given, and the frame written is the header codec ++ payload (judged by C01F's rule on
+// the bytes).  NFC <ctor> <fin> <payload> -> <fin> <rsv> <op> <masked> <len> <payload> <compiled bytes>
+func nfc(c *ctx, ctor string, fin bool, p []byte) {
+	var f ws.Frame
+	switch ctor {
+	case "frame1":
+		f = ws.NewFrame(ws.OpText, fin, p)
+	case "frame2":
+		f = ws.NewFrame(ws.OpBinary, fin, p)
+	case "frame0":
+		f = ws.NewFrame(ws.OpContinuation, fin, p)
+	case "text":
+		f = ws.NewTextFrame(p)
+	case "binary":
+		f = ws.NewBinaryFrame(p)
+	case "ping":
+		f = ws.NewPingFrame(p)
+	case "pong":
+		f = ws.NewPongFrame(p)
+	case "close":
+		f = ws.NewCloseFrame(p)
+	}
+	comp, _ := ws.CompileFrame(f)
+	c.emit("NFC %s %d %s -> %d %d %d %d %d %s %s", ctor, b2i(fin), hx(p), b2i(f.Header.Fin), f.Header.Rsv, f.Header.OpCode, b2i(f.Header.Masked), f.Header.Length, hx(f.Payload), hx(comp))
+}
+
+func r9NFC(c *ctx) {
+	for _, n := range []int{0, 1, 2, 124, 125, 126, 127, 65535, 65536} {
+		p := c.payload(n)
+		for _, ctor := range []string{"frame1", "frame2", "frame0", "text", "binary", "ping", "pong", "close"} {
+			if n > 125 && (ctor == "ping" || ctor == "pong" || ctor == "close") && n > 127 {
+				continue
+			}
+			nfc(c, ctor, true, p)
+			if strings.HasPrefix(ctor, "frame") {
+				nfc(c, ctor, false, p)
+			}
+		}
+	}
 }
